@@ -18,10 +18,10 @@ import (
 type Case struct {
 	Front   string       `json:"front"` // cnf | pb
 	N       int          `json:"n"`
-	Clauses [][]int      `json:"clauses"`           // cnf: clauses; pb: each clause given as PropClause
-	Extra   []gen.PC     `json:"extra,omitempty"`   // pb: additional PB constraints
-	Cost    *oracle.Cost `json:"cost,omitempty"`    // optional cost function
-	Shapes  []string     `json:"shapes,omitempty"`  // labels of the generated building blocks
+	Clauses [][]int      `json:"clauses"`          // cnf: clauses; pb: each clause given as PropClause
+	Extra   []gen.PC     `json:"extra,omitempty"`  // pb: additional PB constraints
+	Cost    *oracle.Cost `json:"cost,omitempty"`   // optional cost function
+	Shapes  []string     `json:"shapes,omitempty"` // labels of the generated building blocks
 }
 
 func build(c Case) *solver.Problem {
